@@ -25,6 +25,12 @@ _m(
     "from_file(path, dset=<dataset rebuilt and preprocessed by the harness>), the documented route), the dataset optimiser "
     "(lr >= 1e-2 adam / 0.1 sgd) is attached after it or was active before and every optimiser is re-stated by the next "
     "call; the second interruption is a with-data checkpoint of that object AND a clone() of it, both continued.  "
+    "'route' sub-search (and ~1 of 8 mixed cases): the dataset is optimised by a stateful optimiser and the route by which its "
+    "parameters receive gradients changes between two calls of the sequence: autograd=True calls followed by autograd=False "
+    "calls (analytic gradients fill object and probe only; optionally back to autograd), or descan_shifts_constant switched "
+    "on by a later call.  'order' sub-search (and SGD-only mixed cases, 1 of 2): every optimiser is SGD, the dataset is "
+    "learned, >= 2 iterations follow the interruption, TV weights are likely (descan_tv_weight in {1e-2, 0.1, 1} in half of "
+    "them) and the harness does NOT align the batch-order generators (align_rng False).  "
     "(skip) the same problems, 1..3 iterations, then a history of 2..3 Ptychography.save calls on one object with skip "
     "lists over {_iter_losses, _iter_lrs, _snapshots, _iter_recon_types, _iter_val_losses, _obj_fov_mask, _dset, dset, the "
     "types list and dict} given as list / tuple / single value or as ONE caller-owned list object passed to every call, "
@@ -33,7 +39,9 @@ _m(
     "stateful optimiser (adam, adamw, sgd with momentum) or an active scheduler is carried across it (the next call does "
     "not replace it), or an optimiser is first attached in a call after an interruption with iterations still to run, or "
     "the case is a lineage case (data-less checkpoint, learned dataset, then with-data checkpoint/clone, all segments "
-    ">= 1 iteration); skip - some complete save is preceded by a save that skipped something (by name, by type or through "
+    ">= 1 iteration), or the gradient route of the dataset parameters changes between two calls under a stateful dataset "
+    "optimiser after >= 1 iteration, or the generators are not aligned with 0 < k and >= 2 iterations after the "
+    "interruption; skip - some complete save is preceded by a save that skipped something (by name, by type or through "
     "save_raw_data=False) which the complete save itself does not skip.  distinct = SHA-1 of the canonical JSON of the "
     "whole case.",
     [
@@ -57,7 +65,12 @@ _m(
         "had (public rng property) on every loaded/cloned object and on the cloned source.  All branches then sum in the "
         "order of the uninterrupted run: on the clean tree continuations are bit-identical to it (2800 generated cases: "
         "loss, LR and probe deviations exactly 0, object <= 4e-4 of tolerance).  The tolerances below were calibrated "
-        "WITHOUT that alignment and are kept as they are",
+        "WITHOUT that alignment and are kept as they are.  Alignment would hide a full-batch result that depends on the "
+        "drawn order, which the property does not excuse: cases with align_rng False leave every branch with the generator "
+        "the library gives it (fresh, unseeded after a reload; results then differ run to run at rounding level).  They are "
+        "drawn only when every optimiser is SGD and with the amplitude loss (Adam turns rounding noise into lr-sized steps; "
+        "the intensity loss scales the SGD step with the dose and amplifies rounding by orders of magnitude at 1e4 counts): "
+        "measured over 2640 such cases on the clean tree, worst loss 0.13, object 0.11, probe 0.008 of tolerance",
         "data-less checkpoints carry learned scan positions / descan shifts but not the dataset model's own optimiser, "
         "scheduler and constraints: lineage cases have none of these before the data-less checkpoint or re-state them in "
         "the next call (verified on the clean tree: both flavours continue within 2e-7 of the uninterrupted run even "
@@ -84,8 +97,11 @@ _m(
         "grows > 50x only gets the exact save/load/clone state checks (rounding differences are amplified without bound in "
         "a diverging optimisation); 0-iteration calls never rely on scheduler defaults derived from num_iters (they divide "
         "by zero in the uninterrupted run as well)",
-        "skip kind: only complete saves are judged (the property speaks about saving together with the data), and only for "
-        "the items that very call did not skip; that skipped items are absent is not asserted",
+        "skip kind: equality with the saved object is judged for complete saves only (the property speaks about saving "
+        "together with the data) and only for the items that very call did not skip; in addition every save whose skip= "
+        "names something (str, type, list or tuple of them: the documented str | type | Sequence[str | type]; sets are not "
+        "Sequences and are not drawn) is reloaded and the named attributes / top-level attributes of the named exact type "
+        "must be absent (the documented meaning of skip; this part serves C14)",
         "mini-batch updates (batch_size < number of patterns) and GPU devices are outside the domain (CPU-only machine: "
         "device moves are no-ops, optimizer re-binding after a real device change is not observable here)",
     ],
@@ -93,8 +109,8 @@ _m(
     technique="property-based testing (Hypothesis): differential run of the same generated call sequence on an uninterrupted "
     "object vs reloaded / cloned / saved-original continuations, plus generated histories of save() calls with different skip "
     "arguments; exact state equality right after save/load/clone",
-    text="Generated-input search (about 0.8 s per case, lineage cases 1.6 s; quick = 4 workers x (10 skip + 42 resume + 8 attach "
-    "+ 8 lineage) cases without shrinking, thorough = 16 workers x 600 cases).  Every case is judged against a never-interrupted run of the same calls and against the reported state of "
+    text="Generated-input search (about 0.8 s per case, lineage cases 1.6 s; quick = 4 workers x (10 skip + 32 resume + 8 route + 8 order "
+    "+ 8 attach + 8 lineage) cases without shrinking, thorough = 16 workers x 640 cases).  Every case is judged against a never-interrupted run of the same calls and against the reported state of "
     "the object that was saved/cloned.  The worst observed error/tolerance ratio per quantity is reported under "
     "coverage.extra.  Exploration only: no absence claim.",
     note="CPU only: parameter/optimizer re-binding after a real device move cannot be observed (an early return in "
